@@ -452,6 +452,38 @@ def run_control(case):
   return R(None, reads > 0 and ("a" in h or "b" in h), (reads,))
 
 
+# ------------------------------------------------------------ calling routes
+from ..routes import routes_agree
+
+
+def route_table():
+  T = OrderedDict()
+  c = lambda v: (lambda: v)
+  def mix(*a, **k):
+    sm = Streamix(*a, **k)
+    sm.add(0, [1, 2])
+    sm.add(4, [10])
+    return sm.take(8)
+  T["Streamix"] = (mix, [("keep", c(True)), ("zero", c(-7))], lambda v: [repr(e) for e in v])
+  def add(*a, **k):
+    sm = Streamix()
+    sm.add(0, [1, 2, 3, 4])
+    sm.add(*a, **k)
+    return list(sm)
+  T["Streamix.add"] = (add, [("delta", c(2)), ("data", lambda: [10, 20, 30])], lambda v: [repr(e) for e in v])
+  return T
+
+
+def gen_routes(run):
+  for name in route_table():
+    yield (name,)
+
+
+def run_routes(case):
+  f, spec, canon = route_table()[case[0]]
+  return routes_agree(case[0], f, spec, canon)
+
+
 KINDS = OrderedDict([
   ("bfs", Kind(None, run_bfs, chunk=16,
                rule="one case = one merged mixer state (its shortest history); every operation applied from it")),
@@ -462,6 +494,8 @@ KINDS = OrderedDict([
                  rule="many events with the same non-dyadic delta; non-trivial: all")),
   ("control", Kind(gen_control, run_control, chunk=2000,
                    rule="all words over {assign a, assign b, read}; non-trivial: >=1 assignment and >=1 read")),
+  ("call-routes", Kind(gen_routes, run_routes, chunk=1,
+                       rule="each function with every documented parameter set: all positional / all keyword / every split must agree")),
 ])
 
 
